@@ -727,6 +727,51 @@ def run(idx, rep, tier):
     from .c02 import compression_renewed
     rep.rule('C11.R14', 'compression contexts are renewed at every NEWKEYS (= C02.R13): keeping the compressor when the re-negotiated algorithm is the same one leaves the sender deflating into a stream the peer has restarted')
     compression_renewed(k, 'C11.R14')
+    rep.rule('C11.R16', 'the time limit counts from the end of a key '
+             'exchange: the function that sets _kex_complete = True also '
+             're-arms self._rekey_time after that store (as well as '
+             '_send_kexinit arming it at the start) - armed at KEXINIT '
+             'only, a limit shorter than one exchange (slow group, loaded '
+             'host) has expired again when the exchange ends, the first '
+             'packet flushed starts the next one and no payload ever gets '
+             'through')
+    _fsn = k.func(CONN + 'send_newkeys')
+    _gsn = k.cfg(_fsn)
+    _done = [n for n, v in k.stores_to(_fsn, 'self._kex_complete')
+             if isinstance(v, ast.Constant) and v.value is True]
+    _arm = [n.id for n, v in k.stores_to(_fsn, 'self._rekey_time')]
+    rep.floor('C11.R16', 'completions of an exchange', len(_done), 1)
+    for _n in _done:
+        _reach = any(_gsn.path(_n.id, a, follow_exc=False) for a in _arm)
+        rep.check(_reach, 'C11.R16',
+                  key(_fsn, 'time limit re-armed at completion'),
+                  'self._rekey_time = now + rekey_seconds after '
+                  '_kex_complete = True',
+                  'rekey_seconds=0.01 with diffie-hellman-group18-sha512 '
+                  '(40 ms per exchange): about 450 KEXINITs in 20 s, '
+                  'create_process() and a 5-byte write never complete',
+                  k.loc(_fsn, _n))
+    rep.rule('C11.R17', 'SSHConnection._process_kexinit: our own KEXINIT is '
+             'on the wire before the key exchange handler is started - the '
+             'test of _kexinit_sent (whose false branch sends KEXINIT) '
+             'lies on every path to self._kex.start(): a client would '
+             'otherwise answer a server-initiated re-exchange with '
+             'KEX_ECDH_INIT before its KEXINIT and be dropped with "Key '
+             'exchange not in progress"')
+    _fpk = k.func(CONN + '_process_kexinit')
+    _gpk = k.cfg(_fpk)
+    _st = [n for n, c in k.calls_named(_fpk, 'start', 'self._kex')]
+    _ks = [a.id for a in _gpk.nodes if a.kind == 'atom' and
+           dotted(a.ast) == 'self._kexinit_sent']
+    rep.floor('C11.R17', 'kex handler starts', len(_st), 1)
+    for _n in _st:
+        _w = _gpk.path(_gpk.entry, _n.id, blocked_nodes=_ks)
+        rep.check(bool(_ks) and _w is None, 'C11.R17',
+                  key(_fpk, 'KEXINIT before the first kex message'),
+                  '_kexinit_sent tested (KEXINIT sent) before start()',
+                  'the handler is started first: message 30 / 34 goes out '
+                  'ahead of our KEXINIT', k.loc(_fpk, _n),
+                  _gpk.describe_path(_w) if _w else None)
     rep.rule('C11.R15', 'every key exchange gets a handler object of its '
              'own: kex.get_kex carries no caching decorator (lru_cache / '
              'cache) and returns a constructor call, and _process_kexinit '
